@@ -262,5 +262,6 @@ class Graph:
         from qiskit import QuantumCircuit
         qc = QuantumCircuit(self.num_vertices)
         qc.h(range(self.num_vertices))
-        qc.cz(*zip(*self.get_edges()))
+        for vertex1, vertex2 in self.get_edges():
+            qc.cz(vertex1, vertex2)
         return qc
